@@ -47,4 +47,45 @@ theorem cmod_eq_zero_iff (a k : Int) (hk : 0 < k) : cmod a k = 0 ↔ a % k = 0 :
       have := Int.emod_eq_zero_of_dvd this
       omega
 
+/-! ### carries as they are computed by `n_min` / `n_sec` / `n_hour` -/
+
+theorem split24_div (a b : Int) :
+    cdiv a 24 + cdiv b 24 + (cmod a 24 + cmod b 24) / 24 = (a + b) / 24 := by
+  simp only [cdiv_pos_lit _ 24 (by decide), cmod_pos_lit _ 24 (by decide)]
+  omega
+theorem split24_mod (a b : Int) : (cmod a 24 + cmod b 24) % 24 = (a + b) % 24 := by
+  simp only [cmod_pos_lit _ 24 (by decide)]
+  omega
+theorem split60_div (a b : Int) :
+    cdiv a 60 + cdiv b 60 + (cmod a 60 + cmod b 60) / 60 = (a + b) / 60 := by
+  simp only [cdiv_pos_lit _ 60 (by decide), cmod_pos_lit _ 60 (by decide)]
+  omega
+theorem split60_mod (a b : Int) : (cmod a 60 + cmod b 60) % 60 = (a + b) % 60 := by
+  simp only [cmod_pos_lit _ 60 (by decide)]
+  omega
+theorem fix60_div (a : Int) : (if cmod a 60 < 0 then cdiv a 60 - 1 else cdiv a 60) = a / 60 := by
+  simp only [cdiv_pos_lit _ 60 (by decide), cmod_pos_lit _ 60 (by decide)]
+  omega
+theorem fix60_mod (a : Int) : (if cmod a 60 < 0 then cmod a 60 + 60 else cmod a 60) = a % 60 := by
+  simp only [cmod_pos_lit _ 60 (by decide)]
+  omega
+theorem fix24_div (a : Int) : (if cmod a 24 < 0 then cdiv a 24 - 1 else cdiv a 24) = a / 24 := by
+  simp only [cdiv_pos_lit _ 24 (by decide), cmod_pos_lit _ 24 (by decide)]
+  omega
+theorem fix24_mod (a : Int) : (if cmod a 24 < 0 then cmod a 24 + 24 else cmod a 24) = a % 24 := by
+  simp only [cmod_pos_lit _ 24 (by decide)]
+  omega
+
+theorem carry60 (a : Int) :
+    (cmod a 60 < 0 → cdiv a 60 - 1 = a / 60 ∧ cmod a 60 + 60 = a % 60) ∧
+    (¬ cmod a 60 < 0 → cdiv a 60 = a / 60 ∧ cmod a 60 = a % 60) := by
+  have h1 := fix60_div a; have h2 := fix60_mod a
+  constructor <;> intro h <;> simp only [h, if_true, if_false] at h1 h2 <;> exact ⟨h1, h2⟩
+
+theorem carry24 (a : Int) :
+    (cmod a 24 < 0 → cdiv a 24 - 1 = a / 24 ∧ cmod a 24 + 24 = a % 24) ∧
+    (¬ cmod a 24 < 0 → cdiv a 24 = a / 24 ∧ cmod a 24 = a % 24) := by
+  have h1 := fix24_div a; have h2 := fix24_mod a
+  constructor <;> intro h <;> simp only [h, if_true, if_false] at h1 h2 <;> exact ⟨h1, h2⟩
+
 end Cctz
